@@ -67,3 +67,38 @@ def split_replays(out):
         if m and cur is not None:
             res[cur].append(m.group(1).rstrip())
     return res
+
+
+def run_shim_tests(rust_src, module='ip_generator.rs', test_filter='mirx_replay', timeout=1200, modname='mirx_replay_mod'):
+    """like run_tests but for a file of the `elvis` crate compiled through the shim crate (see loader.load_shim)"""
+    scratch = os.path.join(os.environ.get('VERIF_SCRATCH', '/tmp/elvis-verif'), f'native-shim-{os.getpid()}-{int(time.time() * 1000) % 100000}')
+    shutil.rmtree(scratch, ignore_errors=True)
+    os.makedirs(scratch)
+    try:
+        core_dst = os.path.join(scratch, 'elvis-core')
+        shutil.copytree(os.path.join(REPO, 'sim', 'elvis-core'), core_dst, ignore=shutil.ignore_patterns('target'))
+        d = os.path.join(scratch, 'shim')
+        os.makedirs(os.path.join(d, 'src'))
+        with open(os.path.join(d, 'Cargo.toml'), 'w') as f:
+            f.write('[package]\nname = "shim"\nversion = "0.0.0"\nedition = "2021"\n\n[dependencies]\nelvis-core = { path = "../elvis-core" }\n'
+                    'tokio = { version = "1.23.0", features = ["rt", "rt-multi-thread", "time", "macros", "signal", "sync"] }\nasync-trait = "0.1.68"\ntracing = "0.1.37"\n\n[workspace]\n')
+        base = os.path.basename(module)
+        dst = os.path.join(d, 'src', base)
+        shutil.copy(os.path.join(REPO, 'sim', 'elvis', 'src', module), dst)
+        mpath = os.path.join(d, 'src', modname + '.rs')
+        with open(mpath, 'w') as f:
+            f.write(rust_src)
+        with open(dst, 'a') as f:
+            f.write(f'\n#[cfg(test)] #[path = "{mpath}"] mod {modname};\n')
+        with open(os.path.join(d, 'src', 'lib.rs'), 'w') as f:
+            f.write(f'#![allow(unused, dead_code)]\npub mod {os.path.splitext(base)[0]};\n')
+        shutil.copy(os.path.join(REPO, 'sim', 'Cargo.lock'), os.path.join(d, 'Cargo.lock'))
+        env = dict(os.environ)
+        env['CARGO_NET_OFFLINE'] = 'true'
+        env['CARGO_TARGET_DIR'] = os.path.join(CACHE, 'native-target')
+        env['RUSTFLAGS'] = env.get('RUSTFLAGS', '') + ' -Awarnings'
+        cmd = ['cargo', 'test', '--offline', '--lib', test_filter, '--', '--nocapture', '--test-threads', '1']
+        p = subprocess.run(['timeout', '-k', '10', str(timeout)] + cmd, cwd=d, env=env, capture_output=True, text=True)
+        return p.stdout + '\n' + p.stderr, p.returncode
+    finally:
+        shutil.rmtree(scratch, ignore_errors=True)
